@@ -40,6 +40,31 @@ func main() {
 	core.VerifQuiet()
 	var p *progen.Program
 	switch os.Args[1] {
+	case "ragged-all":
+		for _, d := range progen.RaggedFamily(false) {
+			q := progen.KeyFlow(d)
+			ref, err := progen.Interpret(q)
+			if err != nil {
+				fmt.Println(d.String(), "REF-ERR", err)
+				continue
+			}
+			res := psx.Run(q, psx.Schedule{}, psx.Options{})
+			v := psx.CheckDataflow(ref, res)
+			v = append(v, psx.CheckExactlyOnce(ref, res)...)
+			first := ""
+			if len(v) > 0 {
+				first = v[0]
+				if len(first) > 150 {
+					first = first[:150]
+				}
+			}
+			e := res.Err
+			if len(e) > 120 {
+				e = e[:120]
+			}
+			fmt.Printf("%s state=%s err=%q nviol=%d %s\n", d.String(), res.State, e, len(v), first)
+		}
+		return
 	case "constmerge":
 		p = constMerge()
 	case "keys":
@@ -55,6 +80,9 @@ func main() {
 	res := psx.Run(p, psx.Schedule{}, psx.Options{KeepDir: os.Getenv("KEEP") != ""})
 	fmt.Println("dir:", res.Dir)
 	fmt.Println("state:", res.State, "err:", res.Err, res.FatalFq, res.FatalLog)
+	if res.PanicStack != "" {
+		fmt.Println("PANIC STACK:\n" + res.PanicStack)
+	}
 	for _, j := range res.Jobs {
 		fmt.Println("job", j.Key, j.ArgsText)
 	}
